@@ -3,6 +3,7 @@
    |trunc(x/u) * u| <= |x| <= |round_up(x/u) * u|, and ROUND is between the two. *)
 From Coq Require Import ZArith QArith Qround Qabs Lia Lqa.
 From PV Require Import Lib.Py Proofs.NumLemmas Proofs.C19.
+From PV Require Gen.excellib.
 Open Scope Q_scope.
 
 Lemma inj_le0 z : (z < 1)%Z -> inject_Z z <= 0.
@@ -56,3 +57,34 @@ Theorem magnitude_bracket_digits x d :
   Qabs (inject_Z (q_trunc (x / digits_unit d)) * digits_unit d) <= Qabs x /\
   Qabs x <= Qabs (inject_Z (q_round_up (x / digits_unit d)) * digits_unit d).
 Proof. apply magnitude_bracket. apply pow10_pos. Qed.
+
+(* ODD: the result is an odd integer 2k+1 in magnitude, the next one at or above
+   |x| (ODD(0) = 1), with the sign of x (positive at 0) *)
+Theorem odd_bracket x : numeric x ->
+  exists r k, excellib.f_odd x = Ok r
+    /\ Qabs (qv r) == inject_Z (2 * k + 1) /\ Qabs (qv x) <= Qabs (qv r)
+    /\ Qabs (qv r) < Qabs (qv x) + 2
+    /\ (qv x < 0 -> qv r < 0) /\ (0 <= qv x -> 0 < qv r).
+Proof.
+  intros Hx. destruct (odd_closed x Hx) as (r & Hr & _ & E).
+  assert (D: 2 * ((Qabs (qv x) - 1) / 2) == Qabs (qv x) - 1) by field.
+  set (t := (Qabs (qv x) - 1) / 2) in *.
+  set (c := Qceiling t) in *.
+  exists r, c. split; [exact Hr|].
+  destruct (ceiling_spec t) as [C1 C2]. fold c in C1, C2.
+  pose proof (Qabs_nonneg (qv x)) as Hax. clearbody t.
+  assert (Hc: 0 <= inject_Z c) by (apply inj_ge0, inj_gtm1; lra).
+  assert (EA: inject_Z (2 * c + 1) == 2 * inject_Z c + 1).
+  { rewrite inject_Z_plus, inject_Z_mult. reflexivity. }
+  assert (HA: 0 <= inject_Z (2 * c + 1)) by lra.
+  rewrite (Qabs_pos _ HA) in E.
+  destruct (q_ltb (qv x) 0) eqn:S.
+  - apply q_ltb_lt in S.
+    assert (Er: Qabs (qv r) == inject_Z (2 * c + 1)).
+    { rewrite E. rewrite Qabs_neg by lra. lra. }
+    rewrite Er. repeat split; lra.
+  - apply q_ltb_ge in S.
+    assert (Er: Qabs (qv r) == inject_Z (2 * c + 1)).
+    { rewrite E. rewrite Qabs_pos by lra. lra. }
+    rewrite Er. repeat split; lra.
+Qed.
